@@ -28,6 +28,10 @@ type channelSub struct {
 	id     uint64
 	value  chan Message
 	events []Name
+	// unsubscribed is closed when Unsubscribe is called for this subscription. From then on
+	// nobody is expected to read from value, and the bus must not wait for room in it.
+	unsubscribed    chan struct{}
+	unsubscribeOnce sync.Once
 }
 
 // Message returns the message channel for the subscription.
@@ -97,9 +101,10 @@ func (b *channelBus) Subscribe(events ...Name) (Subscription, error) {
 		return nil, ErrSubscribedToClosedChan
 	}
 	sub := &channelSub{
-		id:     b.subID.Add(1),
-		value:  make(chan Message, b.eventBufferSize),
-		events: events,
+		id:           b.subID.Add(1),
+		value:        make(chan Message, b.eventBufferSize),
+		events:       events,
+		unsubscribed: make(chan struct{}),
 	}
 	b.commandChannel <- subscribeCommand(sub)
 	return sub, nil
@@ -119,6 +124,10 @@ func (b *channelBus) Unsubscribe(sub Subscription) {
 	if !ok {
 		panic("failed to unsubscribe: invalid subscription type")
 	}
+	// The unsubscribe command is queued behind the messages that are still to be delivered. If the
+	// bus is waiting for room in the buffer of this subscriber it would never get to the command,
+	// and no subscriber would receive anything anymore: tell it to stop waiting.
+	s.unsubscribeOnce.Do(func() { close(s.unsubscribed) })
 	b.commandChannel <- unsubscribeCommand(s)
 }
 
@@ -168,14 +177,28 @@ func (b *channelBus) handleChannel() {
 
 		case publishCommand:
 			for id := range b.events[WildCardName] {
-				b.subs[id].value <- Message(t)
+				b.subs[id].send(Message(t))
 			}
 			for id := range b.events[t.Name] {
 				if _, ok := b.events[WildCardName][id]; ok {
 					continue
 				}
-				b.subs[id].value <- Message(t)
+				b.subs[id].send(Message(t))
 			}
+		}
+	}
+}
+
+// send delivers the message to the subscriber. It blocks while the buffer of the subscriber is
+// full, unless the subscriber has asked to be unsubscribed: it is not reading anymore, and its
+// unsubscribe command can only be handled once this call has returned.
+func (s *channelSub) send(msg Message) {
+	select {
+	case s.value <- msg:
+	default:
+		select {
+		case s.value <- msg:
+		case <-s.unsubscribed:
 		}
 	}
 }
